@@ -611,7 +611,39 @@ pub fn minimise(f: &Finding) -> Finding {
     let ops: Vec<Op> = serde_json::from_value(f.replay["ops"].clone()).unwrap();
     let sig = f.signature.clone();
     let mut fails = |cand: &[Op]| run_guarded(&cfg, cand).findings.iter().any(|(s, _)| *s == sig);
-    let small = crate::fw::ddmin(&ops, &mut fails, 400);
+    let mut small = crate::fw::ddmin(&ops, &mut fails, 400);
+    // second pass: drop whole transactions (renumbering the slots behind them)
+    let mut slot = 0usize;
+    loop {
+        let n_tx = small.iter().filter(|o| matches!(o, Op::Begin(_))).count();
+        if slot >= n_tx {
+            break;
+        }
+        let mut seen = 0usize;
+        let mut cand: Vec<Op> = Vec::new();
+        for o in &small {
+            let fix = |t: usize| if t > slot { t - 1 } else { t };
+            match o {
+                Op::Begin(l) => {
+                    if seen != slot {
+                        cand.push(Op::Begin(*l));
+                    }
+                    seen += 1;
+                }
+                Op::Read(t, e) if *t != slot => cand.push(Op::Read(fix(*t), *e)),
+                Op::Write(t, e) if *t != slot => cand.push(Op::Write(fix(*t), *e)),
+                Op::Commit(t) if *t != slot => cand.push(Op::Commit(fix(*t))),
+                Op::Abort(t) if *t != slot => cand.push(Op::Abort(fix(*t))),
+                Op::Gc => cand.push(Op::Gc),
+                _ => {}
+            }
+        }
+        if !cand.is_empty() && fails(&cand) {
+            small = cand;
+        } else {
+            slot += 1;
+        }
+    }
     let res = run_guarded(&cfg, &small);
     let detail = res
         .findings
